@@ -3,9 +3,12 @@
 # (against /repo's working tree) from files on disk only.
 set -e
 cd "$(dirname "$0")"
+OLDPWD_VERIF="$(pwd)"
 export CARGO_NET_OFFLINE=true
 export CARGO_TARGET_DIR="$(pwd)/.build/harness"
 python3 tools/gen.py
 (cd lean && lake build capyv CapyV)
 (cd harness && cargo build --offline)
+# the real CLI used by the end-to-end properties (same flags as ./check)
+(cd /repo && CARGO_TARGET_DIR="$OLDPWD_VERIF/.build/capy" cargo build -p capy --offline --config profile.dev.package.hir_ty.debug-assertions=false --config profile.dev.package.codegen.debug-assertions=false --config profile.dev.opt-level=1 --config profile.dev.debug=1)
 echo setup-ok
